@@ -4,6 +4,7 @@ import (
 	"go/ast"
 	"go/token"
 	"go/types"
+	"sort"
 	"strings"
 )
 
@@ -234,7 +235,54 @@ func (c *ctx) extraFacts() *leanFile {
 	}
 	l.p("\n/-- the value replaceFunc's callback returns -/\ndef replaceResultSrc : String := %s\n", leanStr(replSrc))
 
-	c.facts["extraFacts"] = map[string]interface{}{"replaceResultSrc": replSrc, "filterInputFlagsSrc": inFlags, "filterCondFlagsSrc": condFlags, "hashKeyCases": keyCases,
+	// functionArgs: the argument query of a function is cloned per call, except for the listed dynamic types
+	// (type assertion or type switch whose arm returns the parameter itself)
+	var exempt []string
+	clonesOtherwise := false
+	if fd := c.funcDecl("", "functionArgs"); fd != nil && fd.Type.Params != nil && len(fd.Type.Params.List) == 1 && len(fd.Type.Params.List[0].Names) == 1 {
+		param := fd.Type.Params.List[0].Names[0].Name
+		returnsParam := func(body []ast.Stmt) bool {
+			for _, st := range body {
+				if r, ok := st.(*ast.ReturnStmt); ok && len(r.Results) == 1 {
+					if id, ok := r.Results[0].(*ast.Ident); ok && id.Name == param {
+						return true
+					}
+				}
+			}
+			return false
+		}
+		typeName := func(e ast.Expr) string { return strings.TrimPrefix(squeeze(c.src(e)), "*") }
+		ast.Inspect(fd.Body, func(n ast.Node) bool {
+			switch x := n.(type) {
+			case *ast.IfStmt:
+				// if _, ok := q.(*T); ok { return q }
+				if as, ok := x.Init.(*ast.AssignStmt); ok && len(as.Rhs) == 1 {
+					if ta, ok := as.Rhs[0].(*ast.TypeAssertExpr); ok && ta.Type != nil && returnsParam(x.Body.List) {
+						exempt = append(exempt, typeName(ta.Type))
+					}
+				}
+			case *ast.TypeSwitchStmt:
+				for _, cl := range x.Body.List {
+					if cc, ok := cl.(*ast.CaseClause); ok && returnsParam(cc.Body) {
+						for _, t := range cc.List {
+							exempt = append(exempt, typeName(t))
+						}
+					}
+				}
+			}
+			return true
+		})
+		if n := len(fd.Body.List); n > 0 {
+			if r, ok := fd.Body.List[n-1].(*ast.ReturnStmt); ok && len(r.Results) == 1 && squeeze(c.src(r.Results[0])) == param+".Clone()" {
+				clonesOtherwise = true
+			}
+		}
+	}
+	sort.Strings(exempt)
+	l.p("\n/-- functionArgs: dynamic types of an argument query that are used without cloning -/\ndef functionArgsExempt : List String := %s\n", leanStrList(exempt))
+	l.p("\n/-- functionArgs: every other argument query is cloned for the call -/\ndef functionArgsClonesOtherwise : Bool := %s\n", leanBool(clonesOtherwise))
+
+	c.facts["extraFacts"] = map[string]interface{}{"replaceResultSrc": replSrc, "functionArgsExempt": exempt, "functionArgsClonesOtherwise": clonesOtherwise, "filterInputFlagsSrc": inFlags, "filterCondFlagsSrc": condFlags, "hashKeyCases": keyCases,
 		"writeKeyPartSrc": partSrc, "asBoolFloatSrc": asBoolFloat, "substringBoundsSrc": sub, "stringToNumberSrc": s2n, "asStringFloatSrc": asStr, "modCallbackSrc": modSrc}
 	return l
 }
